@@ -193,7 +193,8 @@ Fixpoint subst_params (ps args : list name) (b : form) : form :=
   | _, _ => b
   end.
 (* unfolding a definition: f(args) with as many arguments as parameters, or with one more in front,
-   which instantiates the explicit provider of f (and is ignored if f has none) *)
+   which instantiates the explicit provider of f (and is ignored if f has none).  A `self` argument is
+   passed as the identifier-less self: the caller's name for its own channel means nothing in the callee *)
 Definition unfold_call (F : list fundef) (fn : string) (args : list name) : option form :=
   match get_function F fn (length args) with
   | None => None
@@ -203,7 +204,10 @@ Definition unfold_call (F : list fundef) (fn : string) (args : list name) : opti
       match args with
       | a0 :: rest =>
         Some (subst_params (fn_params fd) rest
-                (match fn_explicit fd with Some ep => subst ep a0 (fn_body fd) | None => fn_body fd end))
+                (match fn_explicit fd with
+                 | Some ep => subst ep (if is_self a0 then self_name else a0) (fn_body fd)
+                 | None => fn_body fd
+                 end))
       | [] => None
       end
     else None
